@@ -532,8 +532,11 @@ static void gen(hx_plan_t *p, hx_rng_t *r)
     }
     /* shapes on which the unchanged runtime is known to fail are produced on request only: --knob shapes=<mask>
      * (then in half of the plans); analyse() removes what was not asked for, the plan is made to say so */
-    long allow = hx_cli_knob("shapes", 0);
-    if (allow && hx_chance(r, 50)) allow = 0;
+    /* shapes 1 (mixed local types) and 4 (packed reception next to another output) are ordinary plans since the
+     * fix: commits e541dd0 / 95e4216 in /repo; shape 2 is the open finding KF-PTG-CHAIN-BCAST-DIFFERING-SETS and is kept rare */
+    long allow = hx_cli_knob("shapes", -1);
+    if (allow < 0) allow = 5 | (hx_chance(r, 15) ? 2 : 0);
+    else if (allow && hx_chance(r, 50)) allow = 0;
     hx_set_knob(p, "shapes", allow);
     analyse(p);
     for (int c = 1; c < nc; c++) if (DROPPED >> c & 1) drop_class(p, c, nc);
